@@ -27,7 +27,7 @@ func menuK2(w *chain.World) []chain.Action {
 func menu(w *chain.World) []chain.Action {
 	return []chain.Action{
 		chain.V1Pay(true, 2), chain.V1Chain(), chain.V1SF(true), chain.V1SFChain(), chain.V2SFChain(), chain.V1Form(1, 2, 100), chain.V1Form(0, 1, 10), chain.V1Revise("pay"), chain.V1Revise("grow"), chain.V1Proof(false), chain.V1ProofFee(), chain.V1Proof(true),
-		chain.Seq("v1revise-twice", chain.V1Revise("pay"), chain.V1Revise("grow")), chain.Seq("v1revise+proof", chain.V1Revise("pay"), chain.V1Proof(false)), chain.Seq("v1form+revise", chain.V1Form(1, 2, 100), chain.V1Revise("pay")),
+		chain.Seq("v1revise-twice", chain.V1Revise("pay"), chain.V1Revise("grow")), chain.Seq("v1revise+proof", chain.V1Revise("pay"), chain.V1Proof(false)), chain.V1FormRevise(true),
 		chain.Seq("v2revise-twice", chain.V2Revise("pay"), chain.V2Revise("keys")), chain.Seq("v2form+revise", chain.V2Form(1, 2, 100), chain.V2Revise("pay")), chain.Seq("v2sf+form+sf", chain.V2SF(true), chain.V2Form(1, 2, 10), chain.V2SF(false)),
 		chain.V2Pay(chain.AddrV2, true, 2), chain.V2Pay(chain.AddrV1, false, 1), chain.V2Chain(chain.AddrV2), chain.V2SF(true), chain.V2Form(1, 2, 100), chain.V2Form(0, 1, 10),
 		chain.V2Revise("pay"), chain.V2Revise("keys"), chain.V2Renew("partial"), chain.V2Renew("full"), chain.V2Proof(), chain.V2Expire(), chain.V2Attest(),
